@@ -416,18 +416,34 @@ Fixpoint hdr_loop (fuel : nat) (sp : N -> bool) (d : dict) (s : str) : res (dict
           hdr_loop f sp (dict_set key hval' d) s'
   end.
 
-(* the shortest prefix whose encoding is at least n bytes long, cw c being the number of bytes the
-   character c encodes to (1 for every element of a binary file): fp.read(n) on a binary file,
-   util.read_text_body(fp, n, encoding) on a text file (fixes/C20-5) *)
-Fixpoint take_width (cw : N -> nat) (n : nat) (s : str) {struct s} : str * str :=
-  match s with
-  | [] => ([], [])
-  | c :: s' =>
-      match n with
-      | O => ([], s)
-      | _ => let '(a, b) := take_width cw (n - cw c) s' in (c :: a, b)
+(* the number of bytes a text encodes to, cw c being the number of bytes of the character c *)
+Fixpoint text_width (cw : N -> nat) (t : str) : nat :=
+  match t with [] => O | c :: t' => (cw c + text_width cw t')%nat end.
+
+(* util.read_text_body(fp, length, encoding) (fixes/C20-5), loop for loop: as long as bytes are
+   missing, read max(1, missing // 4) more characters — "no character takes more than four bytes";
+   [text] is what has been read, [rest] what the file still holds.  With cw = one_byte this is
+   fp.read(length) of a binary file. *)
+Definition chunk_div : nat := 4.
+
+Fixpoint read_text_loop (fuel : nat) (cw : N -> nat) (len : nat) (text rest : str) : str * str :=
+  match fuel with
+  | O => (text, rest)
+  | S f =>
+      let missing := (len - text_width cw text)%nat in
+      match missing with
+      | O => (text, rest)
+      | _ =>
+          let k := Nat.max 1 (missing / chunk_div) in
+          match rest with
+          | [] => (text, [])                                  (* fp.read() returned "" *)
+          | _ => read_text_loop f cw len (text ++ firstn k rest) (skipn k rest)
+          end
       end
   end.
+
+Definition read_text (cw : N -> nat) (len : nat) (s : str) : str * str :=
+  read_text_loop (S (length s)) cw len [] s.
 
 Definition one_byte (c : N) : nat := 1%nat.
 Definition utf8_width (c : N) : nat :=
@@ -437,7 +453,7 @@ Definition utf8_width (c : N) : nat :=
 Definition read_body (cw : N -> nat) (clen : option Z) (s : str) : str * str :=
   match clen with
   | Some n => if (n <? 0)%Z || (4 * Z.of_nat (length s) <? n)%Z then (s, [])      (* no character is wider than 4 *)
-              else take_width cw (Z.to_nat n) s
+              else read_text cw (Z.to_nat n) s
   | None => (s, [])
   end.
 
